@@ -623,6 +623,27 @@ def sequences(ctx):
          'LeadSheet.transpose does not apply one transpose_amount to both melody and chords: %s' % calls, construct='melody.transpose(a, ...) and chords.transpose(a)')
   from rules import C17 as _c17
   _c17.paired_on_every_exit(ctx, ls, 'transpose', 'SEQ/leadsheet-every-exit', mode='transpose')
+  # Melody.squash folds the melody into [min_note, max_note) whatever the key argument is: every normal exit has passed
+  # self.transpose(amount, min_note, max_note), except the exit taken when the melody holds no pitch at all
+  sq = ctx.func('melodies_lib:Melody.squash')
+  cons_ = 'Melody.squash transposes / folds on every exit that has notes'
+  miss = U.exits_missing_call(sq.node, lambda c: norm_text(c.func) == 'self.transpose')
+  if not miss:
+    ctx.ob('SEQ/squash-every-exit', sq, sq.node, True, 'every normal exit of Melody.squash has passed self.transpose', construct=cons_)
+  for ex in miss:
+    node_ = ex if isinstance(ex, ast.stmt) and not isinstance(ex, ast.FunctionDef) else sq.node
+    conds_ = [(U.expand_locals(sq.node, t, at=node_), p) for t, p in U.path_conditions(sq.node, node_)] if node_ is not sq.node else []
+    empty_ = any((not p) and isinstance(t, (ast.ListComp, ast.GeneratorExp)) for t, p in conds_)      # `if not <the pitches>:` is the test taken
+    on_key = [(t, p) for t, p in conds_ if any(isinstance(x, ast.Name) and x.id == 'transpose_to_key' for x in ast.walk(t))]
+    if empty_:
+      ctx.ob('SEQ/squash-every-exit', sq, node_, True, 'the exit without a transposition is taken only when the melody has no pitch', construct=cons_ + ' (no-pitch exit)')
+    elif on_key or node_ is sq.node:
+      ctx.ob('SEQ/squash-every-exit', sq, node_, False, 'Melody.squash can end without self.transpose(...) %s: with no key requested the amount is 0, but the octave fold into [min_note, max_note) '
+             'is part of that call and is then never applied' % (('when ' + ' and '.join(('' if p else 'not ') + norm_text(t) for t, p in on_key)) if on_key else 'on the path that falls off the end'),
+             construct=cons_, definite=True)
+    else:
+      why_ = 'cannot classify: Melody.squash can return (line %d) without self.transpose' % getattr(node_, 'lineno', 0)
+      ctx.ob('SEQ/squash-every-exit', sq, node_, False, why_, construct=cons_, unknown=why_)
   lq = ctx.func('lead_sheets_lib:LeadSheet.squash')
   asg = [s for s in lq.node.body if isinstance(s, ast.Assign) and isinstance(s.value, ast.Call) and norm_text(s.value.func) == 'self._melody.squash']
   ok = len(asg) == 1 and isinstance(asg[0].targets[0], ast.Name)
